@@ -20,6 +20,11 @@ def same(a, b, tol=1e-9):
 
 def gen_pair(rnd, kind, dict_input, requires_labels, labelset):
     if kind == "reg":
+        r = rnd.random()
+        if r < 0.04:      # a model can emit inf / nan, a loss can overflow: still a legal (y_true, y_pred) pair
+            return rnd.uniform(0.1, 5), {"output": rnd.choice([float("inf"), float("-inf"), float("nan")])}
+        if r < 0.06:
+            return 1e308, {"output": -1e308}
         return rnd.uniform(0.1, 5) * rnd.choice([1, 1, 10]), {"output": rnd.uniform(0.1, 5)}
     if dict_input:
         labs = labelset
@@ -98,6 +103,13 @@ def main(run):
             w = rnd.choice(wrappers)
             if expl is not None and rnd.random() < 0.15:
                 expl.explain_one({"a": rnd.random(), "b": rnd.random()}, rnd.random())
+            try:       # the oracle first: a pair the metric itself rejects is outside its domain and is not issued
+                fresh = cls()
+                fresh.update(yt, yp if dict_input else yp["output"])
+                exp = fresh.get() * sign
+            except Exception:
+                run.count("pairs-outside-metric-domain")
+                continue
             del received[:]
             yp_copy = dict(yp)
             try:
@@ -106,11 +118,10 @@ def main(run):
                 run.violation(f"loss-raises", f"{name}: loss({yt!r}, {yp!r}) raised {type(ex).__name__}: {ex}", {"metric": name, "y_true": yt, "y_pred": yp})
                 ok = False
                 break
-            fresh = cls()
-            fresh.update(yt, yp if dict_input else yp["output"])
-            exp = fresh.get() * sign
             run.ok(kind="dict-metric" if dict_input else "scalar-metric")
             replay = {"metric": name, "call": i, "y_true": yt, "y_pred": yp, "wrappers_sharing": len(wrappers)}
+            if isinstance(got, float) and not math.isfinite(got):
+                run.count("non-finite-loss-pairs")
             if not same(got, exp):
                 run.violation("not-fresh-value", f"{name} call {i}: loss({yt!r}, {yp!r}) = {got!r}, a fresh metric gives {exp!r} (sign {sign})", replay)
                 ok = False
